@@ -556,3 +556,33 @@ PROPS["C20"] = {
         {"name": "known-f16", "mode": "plain", "run": "TestC20KnownF16", "race": True},
     ],
 }
+
+PROPS["C12"] = {
+    "level": "exploration",
+    "rule": ("Generated concurrent programs under the Go race detector (halt_on_error): 3..8 goroutines, each running 50..400 operations cycled "
+             "from a drawn repertoire of 1..5 of the 22 operations {ListDevices, GetDevice, ListVendors, ListClasses, GetVendorSpecs, "
+             "GetSpecErrors, GetErrors, GetSpecDirectories, GetSpecDirErrors, InjectDevices(d2,d3), InjectDevices(d1,d4), Refresh, "
+             "Configure(dirs), Configure(auto on), Configure(auto off), WriteSpec, RemoveSpec, Device.ApplyEdits, Spec.ApplyEdits, package-level "
+             "Refresh / InjectDevices / GetErrors}; GOMAXPROCS in {2,4,16}; Gosched every 0/1/3/10 operations; an auto-refresh cache or a "
+             "manual cache with a refresher goroutine; a switcher goroutine that atomically renames one Spec file between state A (d1,d2,d3, "
+             "all markers A) and state B (d2,d3,d4, markers B) 20..120 times. Oracle: (1) no race-detector report (the process exits 66 with "
+             "the report; the program is left in a replay file); (2) watchdog: some operation returns at least every 30 s, else a goroutine "
+             "dump; (3) snapshot consistency: every ListDevices result restricted to the kind is exactly A's or B's list, every "
+             "InjectDevices(d2,d3) carries markers of one state only, InjectDevices(d1,d4) fails with exactly one unresolved name and leaves "
+             "the OCI spec untouched, every GetDevice result is the device its own Spec holds and all siblings carry one marker. "
+             "Non-trivial iff the program contains a mutating operation (Configure, WriteSpec, RemoveSpec); distinct = distinct programs."),
+    "assumptions": ["schedules are those the Go runtime produces under stress; they are not enumerated",
+                    "the race detector sees only races that the executed schedule makes happen-unordered"],
+    "manifest": {
+        "text": ("Randomised stress of generated concurrent programs under the race detector with snapshot-consistency assertions. A lock "
+                 "omission is normally visible without an unlucky interleaving (happens-before analysis); an atomicity violation that is "
+                 "locked piecewise needs the switcher to land between the pieces, so its detection is probabilistic."),
+        "note": "trusted: the Go race detector; schedules not controlled",
+        "technique": "property-based concurrency stress: generated programs under the race detector, snapshot-consistency invariants over every result, deadlock watchdog",
+    },
+    "health": {"quick": {"auto-refresh": 50, "manual-with-refresher": 50, "op:Configure" + "Dirs": 20, "op:WriteSpec": 20, "op:InjectBoth": 20}},
+    "units": [
+        {"name": "regress", "mode": "plain", "run": "TestC12Regress", "race": True},
+        {"name": "rapid", "mode": "rapid", "run": "TestC12Rapid", "race": True, "checks": {"quick": 480, "thorough": 9600}, "timeout": {"quick": 400, "thorough": 3600}},
+    ],
+}
